@@ -209,6 +209,12 @@ def run(ctx):
         if r != "ok":
             ctx.fail("serialize-consumes-values:" + r.split(":")[0], r, {"dag": c[0], "vals": c[1], "purity": 1})
     ctx.extra["purity_cases"] = npure
+    # vmc_std / vmc_envelope with control data and a non-empty save list (not in the model): schema written out by hand
+    for i in range(ctx.n(20, 200)):
+        r = core.call_impl(lambda _: control_data_full_case(i), None)
+        if r != "ok":
+            ctx.fail("vm-control-data-continuation:" + r.split(":")[0].split(" ")[0], r, {"control_data_full": i})
+            break
     # known asymmetry: VmControlData (vmc_std / vmc_envelope)
     r = core.call_impl(lambda _: control_data_case(), None)
     if r != "ok":
@@ -232,6 +238,63 @@ def purity(case):
     return "ok"
 
 
+def control_data_full_case(seed):
+    """vmc_std / vmc_envelope with a NON-EMPTY save list, against the VmStack schema written out by hand:
+       vmc_std$00 cdata code:VmCellSlice, vmc_envelope$01 cdata next:^VmCont,
+       vm_ctl_data$_ nargs:(Maybe uint13) stack:(Maybe VmStack) save:(HashmapE 4 VmStackValue) cp:(Maybe int16)"""
+    import random
+    from pytoniq_core.boc.builder import Builder
+    from pytoniq_core.boc.hashmap import HashMap
+    from pytoniq_core.tlb.vm_stack import VmCont, VmControlData, VmStackValue
+    r = random.Random(seed)
+    nargs, cp = r.randrange(1, 1 << 13), r.choice([-1, 1, 7, -32768, 32767])
+    key, val = r.choice([1, 2, 5, 6, 9, 10, 13]), r.randrange(-(1 << 62), 1 << 62)       # keys whose 4 bits are not all equal
+    save = HashMap(4, value_serializer=lambda v, b: b.store_cell(VmStackValue.serialize(v)))
+    save.set_int_key(key, val)
+    # the dictionary root by hand: hml_long$10 n=4 (3 bits) key; vm_stk_tinyint#01 value:int64
+    dict_cell = Builder().store_bits("10" + "100" + format(key, "04b")).store_uint(1, 8).store_int(val, 64).end_cell()
+    cdata_bits = "1" + format(nargs, "013b") + "0" + "1"
+    cp_bits = "1" + format(cp & 0xFFFF, "016b")
+    code = Builder().store_uint(0xABCD, 16).store_ref(Builder().store_uint(3, 2).end_cell()).end_cell()
+    for kind in ("vmc_std", "vmc_envelope"):
+        # (the library takes the save list as the dictionary's root cell: VmSaveList.serialize passes it to store_dict)
+        cd = VmControlData("vm_ctl_data", nargs=nargs, stack=None, save=save.serialize(), cp=cp)
+        if kind == "vmc_std":
+            sl = code.begin_parse()
+            k = VmCont(kind, cdata=cd, code=sl)
+            want = (Builder().store_bits("00" + cdata_bits).store_ref(dict_cell).store_bits(cp_bits)
+                    .store_ref(code).store_uint(0, 10).store_uint(16, 10).store_uint(0, 3).store_uint(1, 3).end_cell())
+        else:
+            k = VmCont(kind, cdata=cd, next=VmCont("vmc_quit_exc"))
+            want = (Builder().store_bits("01" + cdata_bits).store_ref(dict_cell).store_bits(cp_bits)
+                    .store_ref(Builder().store_bits("1001").end_cell()).end_cell())
+        try:
+            got = VmCont.serialize(k)
+        except Exception as e:
+            return f"{kind} with a save list is not serialised: {type(e).__name__}: {e}"
+        if got.hash != want.hash:
+            return f"{kind} with a save list: the encoding differs from the schema"
+        try:
+            back = VmCont.deserialize(want.begin_parse())
+        except Exception as e:
+            return f"{kind} with a save list is not parsed: {type(e).__name__}: {e}"
+        if back.type_ != kind or back.cdata.nargs != nargs or back.cdata.cp != cp:
+            return f"{kind} with a save list: nargs/cp parsed as {getattr(back.cdata, 'nargs', None)}/{getattr(back.cdata, 'cp', None)}"
+        sv = back.cdata.save
+        items = list(sv.items()) if isinstance(sv, dict) else None
+        if not items or len(items) != 1 or items[0][0] != key:
+            return f"{kind}: the save list came back as {str(sv)[:60]}"
+        vs = items[0][1]
+        if (vs.load_uint(8), vs.load_int(64)) != (1, val):
+            return f"{kind}: the saved value came back changed"
+        if kind == "vmc_std":
+            if back.code.to_cell().hash != code.hash:
+                return "vmc_std with a save list: the code slice is not the code cell (read from another reference)"
+        elif back.next.type_ != "vmc_quit_exc":
+            return f"vmc_envelope with a save list: next parsed as {back.next.type_}"
+    return "ok"
+
+
 def control_data_case():
     from pytoniq_core.tlb.vm_stack import VmStack, VmCont, VmControlData
     cd = VmControlData("vm_ctl_data", nargs=0, stack=None, save=None, cp=0)
@@ -246,6 +309,9 @@ def control_data_case():
 
 def replay(ctx, obj):
     c = obj["case"]
+    if "control_data_full" in c:
+        r = core.call_impl(lambda _: control_data_full_case(c["control_data_full"]), None)
+        return None if r == "ok" else r
     if "control_data" in c:
         r = core.call_impl(lambda _: control_data_case(), None)
         return None if r == "ok" else r
